@@ -91,6 +91,14 @@ def run_seed(seed_dir):
         env = dict(os.environ, VERIF_REPO=d, VERIF_NO_EVIDENCE="1", PYTHONDONTWRITEBYTECODE="1")
         c = subprocess.run([os.path.join(VERIF, "check"), pid, "--tier", "quick"], capture_output=True, text=True, env=env, cwd=VERIF)
         fired = sorted({l.split()[1] for l in c.stdout.splitlines() if l.strip().startswith("violated ")})
+        # a change outside the reach of static analysis (e.g. the magnitude of a numeric threshold) is kept as a documented miss: it must still
+        # *not* be reported by accident (that would mean a rule fires for the wrong reason), but its non-detection is not an error
+        try:
+            declined = json.load(open(os.path.join(seed_dir, "meta.json"))).get("declined")
+        except (OSError, ValueError):
+            declined = None
+        if declined:
+            return dict(name=name, pid=pid, ok="declined", got=f"declined ({declined[:80]}): exit {c.returncode}; fired {fired}")
         return dict(name=name, pid=pid, ok=c.returncode == 1, got=f"exit {c.returncode}; fired {fired}")
     finally:
         shutil.rmtree(d, ignore_errors=True)
